@@ -91,8 +91,15 @@ def run(ctx) -> list[Inst]:
             ref_table = table_of(ref_funcs[rname], ref_inline, strip_copies=tid in STRIP_COPIES)
         except Unsupported as e:
             raise AnalysisError(f'reference table {rname} not extractable: {e}')
+        # T3/T4: a propagation that delegates the re-evaluation of a child to evaluate_* is compared by what that
+        # call does (the per-type equations have no TTC gate: delegating to them changes the result)
+        effectful = {}
+        if tid in ('T3', 'T4'):
+            for nm in ('evaluate_viability', 'evaluate_necessity'):
+                if nm in f.module.functions:
+                    effectful[nm] = f.module.functions[nm].node
         try:
-            table = table_of(f.node, inline, strip_copies=tid in STRIP_COPIES)
+            table = table_of(f.node, inline, strip_copies=tid in STRIP_COPIES, effectful=effectful)
         except RecursionError as e:
             insts.append(Inst(RULE, fname, construct, 'unproven', msg='extractor recursion limit', file=rel,
                               line=f.node.lineno, props=props))
